@@ -38,6 +38,9 @@
       non-empty groups, to which 1-3 apply; the result has one leg per non-empty
       group (a matrix, or a vector), fuse_perm = g1 ++ g2, position 0.
 
+   5. C05_fuse_core_sem: the coordinate semantics: sem (fuse_core x groups) at the
+      fused coordinates of cs = sem x cs.
+
    Not covered: arrays that already carry fused axes and are unfused deeper by
    a_unfuse_all; the concat strategy and fermionic signs (not in Model/Array.v). *)
 From SV Require Import Base.Prelude Base.Sym Base.Tensor Model.Sectors Model.Array Model.Wf
@@ -155,6 +158,27 @@ Theorem C05_rest_axes_pair : forall (n : nat) (aa : list nat), NoDup aa -> Foral
   (forall ax, In ax (rest_axes n aa ++ aa) <-> ax < n) /\ (forall ax, In ax (aa ++ rest_axes n aa) <-> ax < n).
 Proof. exact rest_axes_pair. Qed.
 
+
+(* ---- 5: coordinate semantics of the fused array ----
+   fcoords maps a coordinate list of x to the coordinate list of the fused array:
+   per slot the fused charge and  start-of-sub-range + row-major offset of the
+   sub-offsets.  A sector is `recorded` when its sub-sector on every fused
+   (non-singlet) group is the sub-sector of some stored sector, so that the ranges
+   exist; stored sectors are recorded.  For a recorded sector that is NOT stored
+   both sides are zero: the fused block is zero outside the boxes of the stored sectors. *)
+Theorem C05_fuse_core_sem : forall (G : Symmetry) (R : Ring), GroupLaws G -> OrderLaws G ->
+  forall (x : aarray G R) (groups : list (list nat)),
+  wf_array G R x = true ->
+  Forall (fun g => g <> []) groups -> NoDup (concat groups) ->
+  Forall (fun ax => ax < length (indices G R x)) (concat groups) ->
+  forall cs, coords_ok G (indices G R x) cs = true -> recorded G R x groups (map fst cs) ->
+  sem G R (fuse_core G R x groups) (fcoords G R x groups cs) = sem G R x cs.
+Proof. exact fuse_core_sem. Qed.
+
+Theorem C05_stored_sectors_are_recorded : forall (G : Symmetry) (R : Ring) (x : aarray G R) (groups : list (list nat)) s,
+  In s (sectors G R x) -> recorded G R x groups s.
+Proof. exact stored_recorded. Qed.
+
 Print Assumptions C05_fuse_tables_by_slot.
 Print Assumptions C05_fuse_layout_groups.
 Print Assumptions C05_fused_indices_wf.
@@ -166,3 +190,5 @@ Print Assumptions C05_unfuse_fuse_full_proved.
 Print Assumptions C05_a_fuse_nonempty_groups.
 Print Assumptions C05_fuse_pair.
 Print Assumptions C05_rest_axes_pair.
+Print Assumptions C05_fuse_core_sem.
+Print Assumptions C05_stored_sectors_are_recorded.
